@@ -8,7 +8,7 @@
 //   order k           setEndian(k mod 3) on the writer, and at the same point on the reader
 //   v t x             one scalar of type t mod 12 whose bit pattern is x truncated to sizeof(T) (bool: x&1)
 //   a t x1 .. xn      Array<T> of n <= 100 elements with these bit patterns
-//   s k | bytes       k mod 3: 0 const char* (NULs dropped), 1 String (NULs dropped), 2 ByteArray
+//   s k | bytes       k mod 3: 0 const char* (NULs dropped), 1 String (any bytes, built with String(ptr, n)), 2 ByteArray
 //   ra k              write AGAIN the same Array object that the (k mod n)-th of the n earlier "a" ops created (in the order
 //                     now in force); the source objects live for the whole case and are shared by the three sinks, and after
 //                     every << the source (Array / String / ByteArray / C string) must still equal the model
@@ -215,7 +215,7 @@ static Plan decode(const vf::Case& c)
 		else if (o.name == "s") {
 			it.kind = 3;
 			it.t = (int)(((o.i(0) % 3) + 3) % 3);
-			it.s = it.t == 2 ? o.str(0) : drop_nul(o.str(0));
+			it.s = it.t == 0 ? drop_nul(o.str(0)) : o.str(0); // a String (like a ByteArray) may hold any byte, a C string ends at its NUL
 			it.bytes = it.s;
 		}
 		else
@@ -334,7 +334,7 @@ static void write_item(S& s, const Item& it, Sources& src, const char* sink)
 		VF_CHECK(same, sink, ": operator<< changed its argument: ", describe(it));
 	}
 	else if (it.t == 1) {
-		String str(it.s.c_str());
+		String str(it.s.data(), (int)it.s.size());
 		s << str;
 		VF_CHECK((size_t)str.length() == it.s.size() && memcmp(*str, it.s.c_str(), it.s.size() + 1) == 0, sink, ": operator<< changed its argument: ", describe(it));
 	}
@@ -755,7 +755,7 @@ static Gen<vf::Op> opgen()
 			int n = *gen::oneOf(vf::irange<int>(0, 20), vf::irange<int>(0, 300));
 			std::string s;
 			for (int i = 0; i < n; i++)
-				s += (char)*vf::irange<int>(k == 2 ? 0 : 1, 255);
+				s += (char)*vf::irange<int>(k == 0 ? 1 : 0, 255); // C strings are NUL-free; String and ByteArray hold any byte
 			o.a = {k};
 			o.s = {s};
 		}
